@@ -42,3 +42,28 @@ pub use persist::{
     consolidate, consolidate_to_current, to_current_set, to_tuples, Batch, BatchRef, FilePersist,
     PersistBackend, PersistConfig, PersistWal, ShardInfo, ShardMeta, Update,
 };
+
+/// Replace `path` with `content` atomically: write a sibling temp file, fsync it, rename it
+/// over the target and fsync the directory. A crash at any point leaves either the complete
+/// old file or the complete new one, never an empty or half-written file (`fs::write`
+/// truncates first, so a crash between the truncate and the write loses the old content).
+pub fn write_file_atomically(path: &std::path::Path, content: &[u8]) -> std::io::Result<()> {
+    use std::io::Write;
+    let file_name = path.file_name().unwrap_or_default().to_string_lossy();
+    let tmp_path = path.with_file_name(format!("{file_name}.tmp"));
+    {
+        let mut file = std::fs::File::create(&tmp_path)?;
+        file.write_all(content)?;
+        file.sync_all()?;
+    }
+    if let Err(e) = std::fs::rename(&tmp_path, path) {
+        let _ = std::fs::remove_file(&tmp_path);
+        return Err(e);
+    }
+    if let Some(parent) = path.parent() {
+        if let Ok(dir) = std::fs::File::open(parent) {
+            let _ = dir.sync_all();
+        }
+    }
+    Ok(())
+}
